@@ -160,6 +160,17 @@ CLAIMED = {
         'technique': 'contract-based deductive verification (Verus) of extracted real code over a ghost heap model of the RefCell node graph',
         'design_ref': 'DESIGN.md 8.23',
     },
+    'C02': {
+        'text': 'Deductive proof (Verus) on the verbatim bodies of next_solution, next_solution_and, next_solution_or over the ghost node heap (rule R15, see C05): a node whose cut flag is set answers None and does nothing; '
+                'the clause loop of a call fetches no later clause once the call\'s flag is set; an and-node does not obtain another answer from the goals left of a cut (heap invariant: a flagged node\'s head node is flagged); '
+                'no request changes the cut flag of any node above the call it works in (the caller and its other goals are unaffected). '
+                'What the cut itself does to the flags (SolutionNode::set_no_backtracking, unsafe raw-pointer walk) is ASSUMED at the heap level and checked by a bounded Kani harness on the real function (chains of up to 3 real nodes). '
+                'A bounded oracle compares the engine with a reference interpreter on 29 queries over a 45-clause program with cuts.',
+        'note': 'Trusted: heap model (T8), R15 (T4), Verus+Z3 (T5). ASSUMED: contract of next_solution_bip (the `!` arm calls set_no_backtracking; flags kept above the call; invariant kept), make_solution_node (complex-goal nodes have no parent_node: the walk ends at the call). '
+                'Kani 0.68/CBMC for the bounded harness. The reference interpreter adopts the documented semantics of the statement (no answer beyond the one being derived).',
+        'technique': 'contract-based deductive verification (Verus) of extracted real code over a ghost heap model of the RefCell node graph + bounded Kani harness on the unsafe cut walk',
+        'design_ref': 'DESIGN.md 8.24',
+    },
     'C03': {
         'text': 'Deductive proof (Verus) on the verbatim Not branch of next_solution (ghost node heap, rule R15; see C05): not(G) answers only with the substitution set its node was created with (so no binding of G is visible and every binding is as it was), '
                 'it answers exactly when the request to G\'s node returned None (ghost record of that call, clause #not_iff), it is spent after one request whatever the outcome (succeeds at most once; a later request returns None without asking G), '
